@@ -7,6 +7,7 @@ import HdVerif.Generated.TC09d
 import HdVerif.Generated.TC09e
 import HdVerif.Model.MatchOps
 import HdVerif.Generated.TC09f
+import HdVerif.Generated.TC09g
 /-! # Model for C09: `geometry_equal`, `match_geometry`, `VolumeToVolumeTransformer`, bounds checks
 (`src/highdicom/volume.py`).
 
@@ -413,21 +414,70 @@ def boundsFail (axisTest : Int → Rat → Rat → Except ErrKind Bool) (shape :
     if f1 then pure true else
     axisTest (shape 2) (minL (ps.map (·.z)) p.z) (maxL (ps.map (·.z)) p.z)
 
-/-- `VolumeToVolumeTransformer(from, to, round_output, check_bounds)(indices)`:
-`self._affine = to.inverse_affine @ from.affine`, applied to every point, rounded if asked,
-bounds check (ValueError) on what is returned -/
-def v2v (fromA toA : Aff) (toShape : Ax → Int) (roundOut check : Bool) (pts : List V3) : Except ErrKind (List V3) :=
+/-- sequencing in `Except` (an exception ends the call) -/
+def bindE {β γ : Type} (r : Except ErrKind β) (f : β → Except ErrKind γ) : Except ErrKind γ :=
+  match r with
+  | .error e => .error e
+  | .ok b => f b
+
+/-! ### the dtype of the index array
+
+`VolumeToVolumeTransformer.__call__` looks at `indices.dtype`: results are cast (`astype`) to the
+input's integer type when rounding (only if they fit, else to int64 — fix 6590cdc) and back to the
+input's floating type when not rounding.  The three decisions are translated (TC09g). -/
+
+/-- what the transformer can see of the dtype of its input -/
+structure PtDtype where
+  kind : String          -- `dtype.kind`: "i", "u", "f", "b", …
+  lo : Int               -- `np.iinfo(dtype).min` (integer kinds)
+  hi : Int               -- `np.iinfo(dtype).max`
+  narrow : Rat → Rat     -- rounding of a float64 value to this dtype (floating kinds; the identity for float64)
+
+def int64Lo : Int := -9223372036854775808
+def int64Hi : Int := 9223372036854775807
+
+/-- `astype` of an integral value to an integer type with range `[lo, hi]`: wrap-around -/
+def wrapInt (lo hi v : Int) : Int := lo + (v - lo) % (hi - lo + 1)
+
+def castIntV (lo hi : Int) (v : V3) : V3 :=
+  ⟨(wrapInt lo hi (Rat.floor v.x) : Int), (wrapInt lo hi (Rat.floor v.y) : Int), (wrapInt lo hi (Rat.floor v.z) : Int)⟩
+def narrowV (f : Rat → Rat) (v : V3) : V3 := ⟨f v.x, f v.y, f v.z⟩
+
+/-- `output_indices.min()` / `.max()` over all entries (only looked at when there are entries) -/
+def minAll : List V3 → Rat
+  | [] => 0
+  | p :: ps => minL ((p :: ps).map (·.y) ++ (p :: ps).map (·.z) ++ ps.map (·.x)) p.x
+def maxAll : List V3 → Rat
+  | [] => 0
+  | p :: ps => maxL ((p :: ps).map (·.y) ++ (p :: ps).map (·.z) ++ ps.map (·.x)) p.x
+
+/-- the `astype` at the end of either branch of `if self._round_output` -/
+def v2vCast (dt : PtDtype) (roundOut : Bool) (out : List V3) : Except ErrKind (List V3) :=
+  if roundOut then
+    bindE (v2vInputIsInt dt.kind) (fun isInt =>
+    bindE (v2vKeepInputType isInt (3 * (out.length : Int)) (minAll out) (maxAll out) dt.lo dt.hi) (fun keep =>
+    .ok (if keep then out.map (castIntV dt.lo dt.hi) else out.map (castIntV int64Lo int64Hi))))
+  else
+    bindE (v2vCastBack dt.kind) (fun back => .ok (if back then out.map (narrowV dt.narrow) else out))
+
+/-- `VolumeToVolumeTransformer(from, to, round_output, check_bounds)(indices)` for an index array of
+dtype `dt`: `self._affine = to.inverse_affine @ from.affine`, applied to every point, rounded if
+asked, cast, bounds check (ValueError) on what is returned -/
+def v2v (fromA toA : Aff) (toShape : Ax → Int) (dt : PtDtype) (roundOut check : Bool) (pts : List V3) :
+    Except ErrKind (List V3) :=
   match toA.inv with
   | .error e => .error e
   | .ok inv =>
     let M := inv.comp fromA
-    let out := pts.map (fun p => if roundOut then roundV (M.apply p) else M.apply p)
-    if check then
-      match boundsFail v2vBoundsAxis toShape out with
-      | .error e => .error e
-      | .ok true => .error .value
-      | .ok false => .ok out
-    else .ok out
+    match v2vCast dt roundOut (pts.map (fun p => if roundOut then roundV (M.apply p) else M.apply p)) with
+    | .error e => .error e
+    | .ok out =>
+      if check then
+        match boundsFail v2vBoundsAxis toShape out with
+        | .error e => .error e
+        | .ok true => .error .value
+        | .ok false => .ok out
+      else .ok out
 
 /-- `map_reference_to_indices(coordinates, round_output, check_bounds)`: bounds check
 (RuntimeError) on the unrounded indices, then rounding -/
@@ -469,12 +519,6 @@ def MgState.requiresCrop {α : Type} (s : MgState α) : Bool :=
   match s.plan with
   | some pl => pl.2.2.requiresCrop
   | none => false
-
-/-- sequencing in `Except` (an exception ends the call) -/
-def bindE {β γ : Type} (r : Except ErrKind β) (f : β → Except ErrKind γ) : Except ErrKind γ :=
-  match r with
-  | .error e => .error e
-  | .ok b => f b
 
 /-- one top-level operation of `match_geometry` -/
 def mgStep {α : Type} (src : Geom) (tgt : Geom) (tol : Rat) (mode : PadMode α) (s : MgState α) (op : MgOp) :
@@ -518,7 +562,7 @@ def matchBySource {α : Type} (src : Vol α) (tgt : Geom) (tol : Rat) (mode : Pa
   bindE (runMatch src.geom tgt tol mode mgSteps ⟨src, none, none⟩) (fun s => .ok s.vol)
 
 /-- one operation of an index-mapping entry point; the state is (matrix to apply, current points) -/
-def idxStep (fromA toA : Aff) (shape : Ax → Int) (roundOut check : Bool)
+def idxStep (fromA toA : Aff) (shape : Ax → Int) (dt : PtDtype) (roundOut check : Bool)
     (axisTest : Int → Rat → Rat → Except ErrKind Bool) (err : ErrKind) (s : Option Aff × List V3) (op : IdxOp) :
     Except ErrKind (Option Aff × List V3) :=
   match op with
@@ -535,6 +579,7 @@ def idxStep (fromA toA : Aff) (shape : Ax → Int) (roundOut check : Bool)
     | none => .error .other
     | some M => .ok (s.1, s.2.map M.apply)
   | .round => .ok (s.1, if roundOut then s.2.map roundV else s.2)
+  | .cast => bindE (v2vCast dt roundOut s.2) (fun out => .ok (s.1, out))
   | .check =>
     if check then
       match boundsFail axisTest shape s.2 with
@@ -543,24 +588,25 @@ def idxStep (fromA toA : Aff) (shape : Ax → Int) (roundOut check : Bool)
       | .ok false => .ok s
     else .ok s
 
-def runIdx (fromA toA : Aff) (shape : Ax → Int) (roundOut check : Bool)
+def runIdx (fromA toA : Aff) (shape : Ax → Int) (dt : PtDtype) (roundOut check : Bool)
     (axisTest : Int → Rat → Rat → Except ErrKind Bool) (err : ErrKind) :
     List IdxOp → Option Aff × List V3 → Except ErrKind (Option Aff × List V3)
   | [], s => .ok s
   | op :: rest, s =>
-    match idxStep fromA toA shape roundOut check axisTest err s op with
+    match idxStep fromA toA shape dt roundOut check axisTest err s op with
     | .error e => .error e
-    | .ok s' => runIdx fromA toA shape roundOut check axisTest err rest s'
+    | .ok s' => runIdx fromA toA shape dt roundOut check axisTest err rest s'
 
 /-- the transformer, operations in the order of the current source -/
-def v2vBySource (fromA toA : Aff) (toShape : Ax → Int) (roundOut check : Bool) (pts : List V3) : Except ErrKind (List V3) :=
-  match runIdx fromA toA toShape roundOut check v2vBoundsAxis .value v2vSteps (none, pts) with
+def v2vBySource (fromA toA : Aff) (toShape : Ax → Int) (dt : PtDtype) (roundOut check : Bool) (pts : List V3) :
+    Except ErrKind (List V3) :=
+  match runIdx fromA toA toShape dt roundOut check v2vBoundsAxis .value v2vSteps (none, pts) with
   | .error e => .error e
   | .ok s => .ok s.2
 
 /-- `map_reference_to_indices`, operations in the order of the current source -/
 def refToIdxBySource (A : Aff) (shape : Ax → Int) (roundOut check : Bool) (pts : List V3) : Except ErrKind (List V3) :=
-  match runIdx A A shape roundOut check refBoundsAxis .runtime refIdxSteps (none, pts) with
+  match runIdx A A shape ⟨"f", 0, 0, id⟩ roundOut check refBoundsAxis .runtime refIdxSteps (none, pts) with
   | .error e => .error e
   | .ok s => .ok s.2
 
